@@ -474,3 +474,252 @@ func ruleR01g(c *Ctx) {
 	}
 	c.floor("R01g", "sizes handed to make in the renderer", 6, n)
 }
+
+// litHypo fixes the token handed to the parser's value-node constructor.
+type litHypo struct {
+	typ constant.Value
+	val string
+}
+
+func (h litHypo) expr(ev *evaluator, e ast.Expr, info *types.Info) (aval, bool) {
+	if se, ok := ast.Unparen(e).(*ast.SelectorExpr); ok {
+		if tv, ok := info.Types[se.X]; ok {
+			if nt := namedOf(tv.Type); nt != nil && nt.Obj().Name() == "item" {
+				switch se.Sel.Name {
+				case "typ":
+					return constVal(h.typ), true
+				case "val":
+					return constVal(constant.MakeString(h.val)), true
+				}
+			}
+		}
+	}
+	return unknown, false
+}
+func (h litHypo) prim(ev *evaluator, fn *types.Func, call *ast.CallExpr, st state) (aval, bool) {
+	return unknown, false
+}
+func (h litHypo) isRead(fn *types.Func) bool { return false }
+
+// R01h: every spelling of a number the scanner accepts is accepted by the parser's value-node constructor.
+// The constructor is evaluated with the token fixed to each sample spelling (decimal and hexadecimal
+// integers, plain and exponent floats); strconv's parsers are folded on the constant text. Some path must
+// return a node: if every path raises, the literal is a parse error.
+func ruleR01h(c *Ctx) {
+	p := c.pkg("parse")
+	fd := c.mustFunc("parse", "tree.newValueNode")
+	if p == nil || fd == nil {
+		return
+	}
+	info := p.TypesInfo
+	samples := []struct{ kind, text string }{
+		{"itemInteger", "0"}, {"itemInteger", "42"}, {"itemInteger", "0x1F"}, {"itemInteger", "0xA0"},
+		{"itemFloat", "1.5"}, {"itemFloat", "0.0"}, {"itemFloat", "6.02e23"}, {"itemFloat", "1e+06"}, {"itemFloat", "2.5e-07"},
+	}
+	n := 0
+	for _, sm := range samples {
+		k, ok := p.Types.Scope().Lookup(sm.kind).(*types.Const)
+		if !ok {
+			c.fatalf("anchor: parse.%s not found", sm.kind)
+			return
+		}
+		ev := newEvaluator(c, litHypo{k.Val(), sm.text})
+		comps := ev.execBlock(fd.Body.List, state{env: env{}}, info)
+		returns, raises := 0, 0
+		for _, cp := range comps {
+			switch cp.kind {
+			case cReturn:
+				returns++
+			case cNoReturn:
+				raises++
+			}
+		}
+		n++
+		key := fmt.Sprintf("parse.tree.newValueNode accepts %s %q", sm.kind, sm.text)
+		switch {
+		case returns > 0:
+			c.ok("R01h", key, fd.Pos(), fmt.Sprintf("a node is returned (%d returning, %d raising paths)", returns, raises))
+		case raises > 0:
+			c.bad("R01h", key, fd.Pos(), "every path of the constructor raises for this spelling, which the scanner accepts as a number: the literal is rejected as a parse error")
+		default:
+			c.unk("R01h", key, fd.Pos(), "no path evaluated")
+		}
+	}
+	c.floor("R01h", "number spellings evaluated", 9, n)
+}
+
+// R01i: a map literal's keys are the unescaped strings: every value used as a key of the item table that
+// parseMapLiteral builds comes from a parsed string node's Value or from unquoteString, never from the raw
+// token text (which still holds the quotes' escape sequences).
+func ruleR01i(c *Ctx) {
+	p := c.pkg("parse")
+	fd := c.mustFunc("parse", "tree.parseMapLiteral")
+	if p == nil || fd == nil {
+		return
+	}
+	info := p.TypesInfo
+	keys := map[types.Object]bool{}
+	nstores := 0
+	ast.Inspect(fd.Body, func(x ast.Node) bool {
+		as, ok := x.(*ast.AssignStmt)
+		if !ok {
+			return true
+		}
+		for _, l := range as.Lhs {
+			ix, ok := l.(*ast.IndexExpr)
+			if !ok {
+				continue
+			}
+			if tv, ok := info.Types[ix.X]; !ok {
+				continue
+			} else if _, isMap := tv.Type.Underlying().(*types.Map); !isMap {
+				continue
+			}
+			nstores++
+			if id, ok := ast.Unparen(ix.Index).(*ast.Ident); ok && info.Uses[id] != nil {
+				keys[info.Uses[id]] = true
+			} else {
+				c.bad("R01i", "parse.tree.parseMapLiteral key-expression#"+itoa(nstores), ix.Pos(), "the key "+exprKey(ix.Index)+" is not a variable whose origin can be followed")
+			}
+		}
+		return true
+	})
+	c.floor("R01i", "stores into the map literal's item table", 1, nstores)
+	n := 0
+	goodSource := func(e ast.Expr) bool {
+		e = ast.Unparen(e)
+		if se, ok := e.(*ast.SelectorExpr); ok && se.Sel.Name == "Value" {
+			if tv, ok := info.Types[se.X]; ok {
+				if _, tn, ok := relPkgOfType(tv.Type); ok && tn == "StringNode" {
+					return true
+				}
+			}
+		}
+		if call, ok := e.(*ast.CallExpr); ok {
+			if cal := calleeFunc(call, info); cal != nil && cal.Name() == "unquoteString" {
+				return true
+			}
+		}
+		return false
+	}
+	ast.Inspect(fd.Body, func(x ast.Node) bool {
+		var lhs, rhs []ast.Expr
+		switch s := x.(type) {
+		case *ast.AssignStmt:
+			lhs, rhs = s.Lhs, s.Rhs
+		case *ast.ValueSpec:
+			for _, nm := range s.Names {
+				lhs = append(lhs, nm)
+			}
+			rhs = s.Values
+		default:
+			return true
+		}
+		if len(rhs) == 0 {
+			return true
+		}
+		for i, l := range lhs {
+			id, ok := l.(*ast.Ident)
+			if !ok {
+				continue
+			}
+			o := info.Defs[id]
+			if o == nil {
+				o = info.Uses[id]
+			}
+			if o == nil || !keys[o] {
+				continue
+			}
+			r := rhs[0]
+			if len(rhs) == len(lhs) {
+				r = rhs[i]
+			} else if i != 0 {
+				continue
+			}
+			n++
+			c.check(goodSource(r), "R01i", "parse.tree.parseMapLiteral key-definition#"+itoa(n), x.Pos(), "the key is an unescaped string",
+				"a map-literal key is taken from "+exprKey(r)+", not from a parsed string's Value or unquoteString: escape sequences in the key stay as written, so $m['a\\nb'] no longer finds the entry")
+		}
+		return true
+	})
+	c.floor("R01i", "definitions of the key variable", 2, n)
+}
+
+// R01j: printing an expression without a value fails before anything else happens to it: in evalPrint the
+// test for data.Undefined is made on the value the expression evaluated to (s.val right after the walk of
+// node.Arg), in a statement that precedes the loop applying the print directives, and its branch raises.
+// (A directive such as |json turns undefined into text; testing afterwards lets it through.)
+func ruleR01j(c *Ctx) {
+	p := c.pkg("soyhtml")
+	fd := c.mustFunc("soyhtml", "state.evalPrint")
+	if p == nil || fd == nil {
+		return
+	}
+	info := p.TypesInfo
+	nr := newNoRet(c)
+	applyAt := -1
+	for i, st := range fd.Body.List {
+		found := false
+		ast.Inspect(st, func(x ast.Node) bool {
+			if se, ok := x.(*ast.SelectorExpr); ok && se.Sel.Name == "Apply" {
+				found = true
+			}
+			return true
+		})
+		if found {
+			applyAt = i
+			break
+		}
+	}
+	if applyAt < 0 {
+		c.fatalf("anchor: evalPrint has no statement applying directives")
+		return
+	}
+	good := false
+	var at token.Pos = fd.Pos()
+	for _, st := range fd.Body.List[:applyAt] {
+		ifs, ok := st.(*ast.IfStmt)
+		if !ok {
+			continue
+		}
+		isUndefTest := false
+		check := func(n ast.Node) {
+			if n == nil {
+				return
+			}
+			ast.Inspect(n, func(y ast.Node) bool {
+				ta, ok := y.(*ast.TypeAssertExpr)
+				if !ok || ta.Type == nil {
+					return true
+				}
+				if tv, ok := info.Types[ta.Type]; ok {
+					if _, tn, ok := relPkgOfType(tv.Type); ok && tn == "Undefined" {
+						subj := resolveLocalInit(ta.X, fd.Body, info)
+						if fv := fieldOf(subj, info); fv != nil && fv.Name() == "val" {
+							isUndefTest = true
+						}
+					}
+				}
+				return true
+			})
+		}
+		check(ifs.Init)
+		check(ifs.Cond)
+		if !isUndefTest {
+			continue
+		}
+		raises := false
+		ast.Inspect(ifs.Body, func(y ast.Node) bool {
+			if call, ok := y.(*ast.CallExpr); ok && nr.callNoReturn(call, info) {
+				raises = true
+			}
+			return true
+		})
+		if raises {
+			good = true
+			at = ifs.Pos()
+		}
+	}
+	c.check(good, "R01j", "soyhtml.state.evalPrint undefined-before-directives", at, "the expression's value is tested for undefined, and the print fails, before any directive is applied",
+		"no statement before the directive loop rejects an undefined expression value: a directive that accepts undefined (|json prints null) turns a print of a missing value into output instead of an error")
+}
